@@ -266,7 +266,7 @@ def project_one(sid, meta, floors, evs, lines):
             for i in m.get("faults", []):
                 lines.append(dict(ev="Fault", r=ev["r"], i=i))
         elif e == "Release":
-            lines.append(dict(ev="Release", r=ev["r"], i=ev["i"], k=ev["k"], kind=ev["kind"], s=ev["s"], t=ev["t"], slot=ev["slot"],
+            lines.append(dict(ev="Release", r=ev["r"], i=ev["i"], pos=ev["pos"], k=ev["k"], kind=ev["kind"], s=ev["s"], t=ev["t"], slot=ev["slot"],
                               root=ev["root"], dom=ev["dom"], ip=reqip.get(ev["r"], "none")))
         elif e == "Respond":
             lines.append(dict(ev="Respond", r=ev["r"], res=ev["res"], sig=ev["sig"]))
@@ -422,8 +422,18 @@ def run(prop, tier, seed):
                 raise Inconclusive("layer-P trace specification could not consume line %s (scenario %s)" % (pos, sid))
             verdict.violation("%s:%s" % (violated, sid), "real run rejected by SeqTrace invariant %s at trace line %s (scenario %s)" % (violated, pos, sid),
                               dict(scenario=sc, meta=smeta, floors=sfloors, trace=seg, invariant=violated, maxi=maxi))
+        batch_cov = None
+        if prop == "C09":
+            # second half of C09: a batch equals its entries one at a time, for every size and degree of parallelism
+            import batchfamily
+            sp = batchfamily.scatter_phase(tier, wd, info)
+            bres = batchfamily.run_batches(prop, tier, seed, wd, info, verdict, twin=True)
+            batch_cov = dict(scatter=sp, batches={k: v for k, v in bres.items() if k != "sample"})
+            nsc += bres["batches"]
+            if sp["drift"]:
+                print("DRIFT: util.Scatter extents differ from Scatter.tla in %d cell(s), e.g. %s" % (len(sp["drift"]), sp["drift"][0]))
         rc = verdict.finish()
-        cov = dict(states=info["states"], transitions=info["transitions"], traces_validated_against_impl=nsc,
+        cov = dict(states=info["states"], transitions=info["transitions"], traces_validated_against_impl=nsc, batch_equals_sequential=batch_cov,
                    samples=[dict(kind="recorded-trace-prefix", lines=sample_trace),
                             dict(kind="attack-histories", items=attacks[:4])],
                    model_runs=info["model_runs"], mutants=info["mutants"], mutants_expected=len(p["mutants"]),
@@ -444,6 +454,9 @@ def run(prop, tier, seed):
 def replay(prop, path):
     """Re-run the scenario of a replay file on the current tree and validate it again."""
     obj = json.load(open(path))["replay"]
+    if obj.get("batch"):
+        import batchfamily
+        return batchfamily.replay(prop, path)
     wd = workdir(prop + "-replay")
     try:
         events, rc, err = run_driver([obj["scenario"]], wd, tag="replay")
